@@ -242,8 +242,8 @@ def _open_pipeline(path, mode="r", *a, **kw):
 
 def _open_local_io(path, mode="r", *a, **kw):
     c = ctl()
-    if c is not None and c.active and ("w" in mode or "x" in mode) and "b" in mode:
-        return FaultyWriter(path, c, "xb" if "x" in mode else "wb")
+    if c is not None and c.active and any(m in mode for m in "wxa") and "b" in mode and "+" not in mode:
+        return FaultyWriter(path, c, ("x" if "x" in mode else "a" if "a" in mode else "w") + "b")
     return _real_open(path, mode, *a, **kw)
 
 
